@@ -25,6 +25,8 @@ import Mhd.Proofs.StrQuote
 import Mhd.Proofs.StrB64
 import Mhd.Proofs.StrCmp
 import Mhd.Proofs.StrCompose
+import Mhd.Proofs.StrTok
+import Mhd.Proofs.StrRm
 
 namespace Mhd.C17
 open Mhd.Str
@@ -106,6 +108,20 @@ theorem print_parse_roundtrip (val : Nat) (out : Bytes) (hv : val ≤ 2 ^ 64 - 1
       (n = 0 ↔ ∀ k, val < 10 ^ (k + 1) → out.length < k + 1) :=
   strToUint64N_uint64ToStr val out (by have : u64Max = 2 ^ 64 - 1 := by decide
                                        omega)
+
+/-- `MHD_uint32_to_strx`: canonical upper-case hexadecimal representation iff it fits -/
+theorem uint32ToStrx_exact (val : Nat) (out : Bytes) (hv : val < 2 ^ 32) :
+    ∃ k, (k = 0 ∨ 16 ^ k ≤ val) ∧ val < 16 ^ (k + 1) ∧
+      Wrote (uint32ToStrx val out) out (if k + 1 ≤ out.length then some (hexDigitsU k val) else none) :=
+  uint32ToStrx_spec val out hv
+
+/-- `MHD_strx_to_uint32_n_ ∘ MHD_uint32_to_strx = id` -/
+theorem strx_print_parse_roundtrip (val : Nat) (out : Bytes) (hv : val < 2 ^ 32) :
+    ∃ n o, uint32ToStrx val out = .ok (n, o) ∧ (n ≠ 0 → strxToUint32N (o.take n) = .ok (n, val)) :=
+  strxToUint32N_uint32ToStrx val out hv
+
+example : uint32ToStrx 0xBEEF (List.replicate 4 0) = .ok (4, [0x42, 0x45, 0x45, 0x46]) := rfl
+example : uint32ToStrx 0 [7] = .ok (1, [0x30]) := rfl
 
 example : uint64ToStr 1234 (List.replicate 4 0) = .ok (4, [0x31, 0x32, 0x33, 0x34]) := rfl
 example : uint64ToStr 1234 (List.replicate 3 0) = .ok (0, [0x31, 0x32, 0x33]) := rfl
@@ -249,7 +265,70 @@ theorem equalCaseless_exact (ca ta cb tb : Bytes) (hza : ∀ x ∈ ca, x ≠ 0) 
     equalCaseless (ca ++ 0 :: ta) (cb ++ 0 :: tb) = .ok (listEq charsEqualCaseless ca cb) :=
   equalCaseless_spec ca ta cb tb hza hzb
 
+/-- `MHD_str_equal_caseless_n_` on two z-terminated buffers: caseless equality of the first
+    `maxlen` characters of the two strings (`strncasecmp (…) == 0`) -/
+theorem equalCaselessN_exact (ca ta cb tb : Bytes) (maxlen : Nat) (hza : ∀ x ∈ ca, x ≠ 0) (hzb : ∀ x ∈ cb, x ≠ 0) :
+    equalCaselessN (ca ++ 0 :: ta) (cb ++ 0 :: tb) maxlen =
+      .ok (listEq charsEqualCaseless (ca.take maxlen) (cb.take maxlen)) := by
+  rw [equalCaselessN_spec ca ta cb tb maxlen hza hzb, ceqN_eq]
+
 example : equalCaseless [0x41, 0x62, 0] [0x61, 0x42, 0, 0x7a] = .ok true := rfl
+example : equalCaselessN [0x41, 0x62, 0x63, 0] [0x61, 0x42, 0x7a, 0] 2 = .ok true := rfl
+
+/-! ## Comma-list token search -/
+
+/-- `MHD_str_has_token_caseless_ (str, token, token_len)` on any z-terminated string and
+    any permitted token (non-empty; no NUL, space, tab, comma): true exactly when the
+    token is a member of the reference token list — split on ',', trim spaces and tabs,
+    compare caselessly.  (Needs the repair F17b.) -/
+theorem hasToken_iff_member (c tail tok : Bytes) (hz : ∀ x ∈ c, x ≠ 0) (htok : TokenOk tok) :
+    hasTokenCaseless (c ++ 0 :: tail) tok =
+      .ok ((tokensOf c).any (fun e => listEq charsEqualCaseless e tok)) :=
+  hasTokenCaseless_spec c tail tok hz htok
+
+theorem hasToken_empty_token (s : Bytes) : hasTokenCaseless s [] = .ok false :=
+  hasTokenCaseless_empty s
+
+/-- " a ,, B" has the elements "a", "", "B" -/
+example : tokensOf [0x20, 0x61, 0x20, 0x2c, 0x2c, 0x20, 0x42] = [[0x61], [], [0x42]] := by decide
+/-- "c,close" contains the token "CLOSE" (F17b: the unrepaired code says no) -/
+example : hasTokenCaseless [0x63, 0x2c, 0x63, 0x6c, 0x6f, 0x73, 0x65, 0] [0x43, 0x4c, 0x4f, 0x53, 0x45] = .ok true := rfl
+example : TokenOk [0x63, 0x6c, 0x6f, 0x73, 0x65] := by
+  refine ⟨by simp, ?_⟩
+  intro x hx
+  simp only [List.mem_cons, List.not_mem_nil, or_false] at hx
+  rcases hx with h | h | h | h | h <;> subst h <;> decide
+
+/-! ## Comma-list token removal
+
+  Full statement (not proved; carried by the correspondence run — bounded-exhaustive over
+  all strings of length ≤ 4/5 × all buffer sizes, plus random token lists — and by the
+  Python reference):
+    removeTokenCaseless str tok out = .ok (removed, n, o)  with
+      kept    = (tokensOf str).filter (fun e => e ≠ [] ∧ ¬ listEq charsEqualCaseless e tok)
+      result  = ", ".intercalate (kept.map collapseInnerWhitespace)
+      removed = (tokensOf str).any (listEq charsEqualCaseless · tok) ∧ n = result.length ∧ o.take n = result
+      if result fits into `out`, and (false, -1, _) otherwise;
+    removeTokensCaseless likewise under its documented precondition (normalised input).
+  Proved: memory safety, termination and the range of the reported size, for every input. -/
+
+/-- `MHD_str_remove_token_caseless_`: for every string, token and output buffer the call
+    returns normally — no read beyond `str_len` / `token_len`, no write beyond
+    `*buf_size`, all loops terminate —, the buffer keeps its size, and the reported
+    `*buf_size` is -1 or lies within the buffer. -/
+theorem removeToken_safe_partial (str token out : Bytes) :
+    ∃ r n o, removeTokenCaseless str token out = .ok (r, n, o) ∧ o.length = out.length ∧
+      (n = -1 ∨ (0 ≤ n ∧ n ≤ (out.length : Int))) :=
+  removeTokenCaseless_safe str token out
+
+/-- " a ,close , b" minus "CLOSE" is "a, b" -/
+example : removeTokenCaseless [0x20, 0x61, 0x20, 0x2c, 0x63, 0x6c, 0x6f, 0x73, 0x65, 0x20, 0x2c, 0x20, 0x62] [0x43, 0x4c, 0x4f, 0x53, 0x45] (List.replicate 4 0) = .ok (true, 4, [0x61, 0x2c, 0x20, 0x62]) := rfl
+/-- F17c: "close \t x" is kept, and normalised to "close x" (the unrepaired code copies " \t " verbatim) -/
+example : removeTokenCaseless [0x63, 0x6c, 0x6f, 0x73, 0x65, 0x20, 0x09, 0x20, 0x78] [0x63, 0x6c, 0x6f, 0x73, 0x65] (List.replicate 8 0) = .ok (false, 7, [0x63, 0x6c, 0x6f, 0x73, 0x65, 0x20, 0x78, 0x00]) := rfl
+/-- one byte too few: refused with -1 -/
+example : (removeTokenCaseless [0x20, 0x61, 0x20, 0x2c, 0x63, 0x6c, 0x6f, 0x73, 0x65, 0x20, 0x2c, 0x20, 0x62] [0x43, 0x4c, 0x4f, 0x53, 0x45] (List.replicate 3 0)).map (fun r => (r.1, r.2.1)) = .ok (false, -1) := rfl
+/-- the in-place multi-token removal on a normalised list: "a, close, b" minus "b ,CLOSE" is "a" -/
+example : removeTokensCaseless [0x61, 0x2c, 0x20, 0x63, 0x6c, 0x6f, 0x73, 0x65, 0x2c, 0x20, 0x62] [0x62, 0x20, 0x2c, 0x43, 0x4c, 0x4f, 0x53, 0x45] = .ok (true, 1, [0x61, 0x2c, 0x20, 0x63, 0x6c, 0x6f, 0x73, 0x65, 0x2c, 0x20, 0x62]) := rfl
 
 /-! ## No fault, for all inputs (corollaries, stated per function) -/
 
@@ -260,10 +339,12 @@ theorem nofault_parse (s : Bytes) :
    fun hz => ⟨⟨_, strToUint64_spec s hz⟩, ⟨_, strxToUint_spec _ s hz⟩, ⟨_, strxToUint_spec _ s hz⟩⟩⟩
 
 theorem nofault_print (val : Nat) (out : Bytes) :
-    (val ≤ 2 ^ 64 - 1 → NoFault (uint64ToStr val out)) ∧ (val < 65536 → NoFault (uint16ToStr val out)) := by
-  constructor
+    (val ≤ 2 ^ 64 - 1 → NoFault (uint64ToStr val out)) ∧ (val < 65536 → NoFault (uint16ToStr val out)) ∧
+    (val < 2 ^ 32 → NoFault (uint32ToStrx val out)) := by
+  refine ⟨?_, ?_, ?_⟩
   · intro hv; obtain ⟨_, _, _, h⟩ := uint64ToStr_exact val out hv; exact h.noFault
   · intro hv; obtain ⟨_, _, _, h⟩ := uint16ToStr_exact val out hv; exact h.noFault
+  · intro hv; obtain ⟨_, _, _, h⟩ := uint32ToStrx_exact val out hv; exact h.noFault
 
 theorem nofault_codecs (s out : Bytes) :
     NoFault (pctDecodeStrictN s out) ∧ NoFault (pctDecodeLenientN s out) ∧ NoFault (base64ToBinN s out) ∧
@@ -282,6 +363,13 @@ theorem nofault_inplace (b : Bytes) (hz : 0 ∈ b) :
   obtain ⟨r1, h1, _⟩ := pctDecodeInPlaceStrict_spec c tail hc
   obtain ⟨r2, h2, _⟩ := pctDecodeInPlaceLenient_spec c tail hc
   exact ⟨⟨r1, h1⟩, ⟨r2, h2⟩⟩
+
+theorem nofault_hasToken (s tok : Bytes) (hz : 0 ∈ s) (htok : TokenOk tok ∨ tok = []) :
+    NoFault (hasTokenCaseless s tok) := by
+  rcases htok with h | h
+  · obtain ⟨c, tail, rfl, hc⟩ := exists_cstr s hz
+    exact ⟨_, hasTokenCaseless_spec c tail tok hc h⟩
+  · subst h; exact ⟨_, hasTokenCaseless_empty s⟩
 
 theorem nofault_compare (q u : Bytes) :
     NoFault (equalQuotedBinN q u) ∧ NoFault (equalCaselessQuotedBinN q u) ∧
